@@ -113,6 +113,15 @@ Qed.
 Lemma map_snd_combine_seq {A} s (l : list A) : map snd (combine (seq s (length l)) l) = l.
 Proof. revert s. induction l as [|x l IH]; intros s; [reflexivity|]. cbn [length seq combine map snd]. rewrite IH. reflexivity. Qed.
 
+Lemma mapO_map_lookup {B} (f : nat -> B) qubits perm : NoDup qubits -> (forall p, In p perm -> (p < length qubits)%nat) ->
+  mapO (fun q => lookupZ q (map (fun iq => (snd iq, f (fst iq))) (combine (seq 0 (length qubits)) qubits)))
+       (map (fun p => nth p qubits 0) perm) = Some (map f perm).
+Proof.
+  intros Hnd. induction perm as [|p perm IH]; intros Hp; [reflexivity|].
+  cbn [map mapO]. rewrite lookup_encoded by (try exact Hnd; apply Hp; left; reflexivity).
+  rewrite IH by (intros; apply Hp; right; assumption). reflexivity.
+Qed.
+
 (* decoding one encoded measurement, reading the qubits in the order given by `perm` (positions in m.qubits) *)
 Lemma mr_roundtrip_perm R m data mr (perm : list nat) :
   mr_to_proto R m data = Some mr -> NoDup (m_qubits m) -> (1 <= m_instances m)%nat ->
@@ -140,4 +149,131 @@ Proof.
   - rewrite map_snd_combine_seq. exact Hnd.
   - intros iq _ [].
   - intros iq Hin. rewrite (column_length data (m_instances m)) by exact HallI. rewrite HR. reflexivity.
+Qed.
+
+Lemma nth_seq_id {A} (d : A) (l : list A) : map (fun p => nth p l d) (seq 0 (length l)) = l.
+Proof. rewrite (map_seq_nth (fun x => x) d l). apply map_id. Qed.
+
+Lemma data_id_perm Q (data : recd) :
+  Forall (fun rep => Forall (fun row => length row = Q) rep) data ->
+  map (map (fun row => map (fun p => nth p row false) (seq 0 Q))) data = data.
+Proof.
+  intros H. rewrite <- (map_id data) at 2. apply map_ext_in. intros rep Hrep.
+  rewrite Forall_forall in H. specialize (H rep Hrep).
+  rewrite <- (map_id rep) at 2. apply map_ext_in. intros row Hrow.
+  rewrite Forall_forall in H. rewrite <- (H row Hrow). apply nth_seq_id.
+Qed.
+
+(* one measurement result decodes to the array it was built from (expected qubit order = m.qubits) *)
+Theorem mr_roundtrip R m data mr :
+  mr_to_proto R m data = Some mr -> NoDup (m_qubits m) -> (1 <= m_instances m)%nat ->
+  mr_from_proto R (Some (m_qubits m)) mr = Some (m_key m, data).
+Proof.
+  intros Henc Hnd Hinst.
+  pose proof (mr_roundtrip_perm R m data mr (seq 0 (length (m_qubits m))) Henc Hnd Hinst) as H.
+  rewrite seq_length, nth_seq_id in H. rewrite H by (try reflexivity; intros p Hp; apply in_seq in Hp; lia).
+  f_equal. f_equal. apply data_id_perm.
+  unfold mr_to_proto in Henc. destruct (shape_ok data R (m_instances m) (length (m_qubits m))) eqn:E; [|discriminate].
+  apply shape_ok_spec in E. destruct E as [_ E]. eapply Forall_impl; [|exact E]. intros rep [_ Hq]. exact Hq.
+Qed.
+
+Lemma map_fst_combine_seq {A} s (l : list A) : map fst (combine (seq s (length l)) l) = seq s (length l).
+Proof. revert s. induction l as [|x l IH]; intros s; [reflexivity|]. cbn [length seq combine map fst]. rewrite IH. reflexivity. Qed.
+
+(* without a measurement list the qubits come back in message order, which is the order they were written in *)
+Theorem mr_roundtrip_message_order R m data mr :
+  mr_to_proto R m data = Some mr -> NoDup (m_qubits m) -> (1 <= m_instances m)%nat ->
+  mr_from_proto R None mr = Some (m_key m, data).
+Proof.
+  intros Henc Hnd Hinst.
+  pose proof (mr_roundtrip R m data mr Henc Hnd Hinst) as Hgood.
+  unfold mr_to_proto in Henc.
+  destruct (shape_ok data R (m_instances m) (length (m_qubits m))) eqn:Esh; [|discriminate].
+  injection Henc as <-. apply shape_ok_spec in Esh. destruct Esh as [HR Hall].
+  assert (HallI : Forall (fun rep => length rep = m_instances m) data)
+    by (eapply Forall_impl; [|exact Hall]; intros rep [H _]; exact H).
+  unfold mr_from_proto in *. cbn [mr_instances mr_qubits mr_key] in *.
+  rewrite Nat.max_l in * by exact Hinst.
+  rewrite (qubit_results_encoded (column data) (R * m_instances m)) in *;
+    try (rewrite map_snd_combine_seq; exact Hnd); try (intros iq _ []);
+    try (intros iq Hin; rewrite (column_length data (m_instances m)) by exact HallI; rewrite HR; reflexivity).
+  set (QR := map (fun iq : nat * Z => (snd iq, column data (fst iq))) (combine (seq 0 (length (m_qubits m))) (m_qubits m))) in *.
+  assert (E : mapO (fun q => lookupZ q QR) (m_qubits m) = Some (map snd QR)).
+  { pose proof (mapO_map_lookup (column data) (m_qubits m) (seq 0 (length (m_qubits m))) Hnd) as H.
+    rewrite nth_seq_id in H. unfold QR. rewrite H by (intros p Hp; apply in_seq in Hp; lia).
+    f_equal. rewrite map_map. cbn [snd]. rewrite <- (map_map fst (column data)), map_fst_combine_seq. reflexivity. }
+  rewrite E in Hgood. exact Hgood.
+Qed.
+
+(* ---- one parameterized result, one sweep, all sweeps ---- *)
+Definition ms_wf (ms : list minfo) : Prop :=
+  NoDup (map m_key ms) /\ forall m, In m ms -> NoDup (m_qubits m) /\ (1 <= m_instances m)%nat.
+
+Lemma find_unique (l : list minfo) m : NoDup (map m_key l) -> In m l ->
+  find (fun m' => m_key m' =? m_key m) l = Some m.
+Proof.
+  induction l as [|a l IH]; intros Hnd Hin; [contradiction|]. cbn [find].
+  inversion Hnd as [|? ? Ha Hnd']; subst. destruct Hin as [->|Hin].
+  - rewrite Z.eqb_refl. reflexivity.
+  - destruct (m_key a =? m_key m) eqn:E.
+    + apply Z.eqb_eq in E. exfalso. apply Ha. rewrite E. apply in_map. exact Hin.
+    + apply IH; assumption.
+Qed.
+
+Lemma order_for_wf ms m : NoDup (map m_key ms) -> In m ms -> order_for (Some ms) (m_key m) = Some (Some (m_qubits m)).
+Proof.
+  intros Hnd Hin. unfold order_for. destruct ms as [|m0 ms']; [contradiction|].
+  remember (m0 :: ms') as ms. rewrite (find_unique (rev ms) m).
+  - reflexivity.
+  - rewrite map_rev. apply NoDup_rev. exact Hnd.
+  - apply in_rev in Hin. exact Hin.
+Qed.
+
+Definition restrict (ms : list minfo) (t : trial) : list (Z * recd) :=
+  map (fun m => (m_key m, match lookupZ (m_key m) (t_records t) with Some d => d | None => [] end)) ms.
+
+Lemma mr_to_proto_key R m data mr : mr_to_proto R m data = Some mr -> mr_key mr = m_key m.
+Proof. unfold mr_to_proto. destruct (shape_ok _ _ _ _); [|discriminate]. intros H. injection H as <-. reflexivity. Qed.
+
+Lemma pr_roundtrip R ms t pr : ms_wf ms -> pr_to_proto R ms t = Some pr ->
+  pr_from_proto R (Some ms) pr = Some (restrict ms t).
+Proof.
+  intros [Hk Hm] Henc. unfold pr_from_proto, pr_to_proto in *.
+  rewrite (mapO_compose _ _ (fun m => Some (m_key m, match lookupZ (m_key m) (t_records t) with Some d => d | None => [] end)) ms pr Henc).
+  - apply mapO_total. reflexivity.
+  - intros m mr Hin Hf. destruct (lookupZ (m_key m) (t_records t)) as [data|]; [|discriminate].
+    rewrite (mr_to_proto_key _ _ _ _ Hf), (order_for_wf ms m Hk Hin).
+    destruct (Hm m Hin) as [Hnd Hi]. apply (mr_roundtrip R m data mr Hf Hnd Hi).
+Qed.
+
+Lemma sweep_roundtrip ms ts sr : ms_wf ms -> sweep_to_proto ms ts = Some sr ->
+  sweep_from_proto (Some ms) sr = Some (map (restrict ms) ts).
+Proof.
+  intros Hwf Henc. unfold sweep_to_proto in Henc. destruct ts as [|t0 ts'].
+  - injection Henc as <-. reflexivity.
+  - remember (t0 :: ts') as ts. destruct (forallb _ ts); [|discriminate].
+    destruct (mapO (pr_to_proto (t_reps t0) ms) ts) as [prs|] eqn:E; [|discriminate].
+    injection Henc as <-. unfold sweep_from_proto. cbn [sr_reps sr_results].
+    rewrite (mapO_compose _ _ (fun t => Some (restrict ms t)) ts prs E).
+    + apply mapO_total. reflexivity.
+    + intros t pr _ Hf. apply pr_roundtrip; assumption.
+Qed.
+
+(* results_from_proto(results_to_proto(r, m), m) = r restricted to the measured keys: every key, instance,
+   qubit and repetition comes back in place, for any number of repetitions *)
+Theorem results_proto_roundtrip ms sweeps msg : ms_wf ms -> results_to_proto ms sweeps = Some msg ->
+  results_from_proto (Some ms) msg = Some (map (map (restrict ms)) sweeps).
+Proof.
+  intros Hwf Henc. unfold results_from_proto, results_to_proto in *.
+  rewrite (mapO_compose _ _ (fun ts => Some (map (restrict ms) ts)) sweeps msg Henc).
+  - apply mapO_total. reflexivity.
+  - intros ts sr _ Hf. apply sweep_roundtrip; assumption.
+Qed.
+
+(* the message is well defined exactly on well-shaped input: one measurement *)
+Theorem mr_to_proto_defined R m data :
+  mr_to_proto R m data <> None <-> shape_ok data R (m_instances m) (length (m_qubits m)) = true.
+Proof.
+  unfold mr_to_proto. destruct (shape_ok _ _ _ _); split; try discriminate; try reflexivity.
+  intros H. exfalso. apply H. reflexivity.
 Qed.
